@@ -444,8 +444,21 @@ def call(ctx, e, want):
 MUTATORS = ("append", "remove", "add", "extend")
 
 
+def setdefault_append(st):
+    """`d.setdefault(k, []).append(v)` -> (d, k, v) else None"""
+    if isinstance(st, ast.Expr) and isinstance(st.value, ast.Call) and isinstance(st.value.func, ast.Attribute) and st.value.func.attr == "append" \
+            and isinstance(st.value.func.value, ast.Call) and isinstance(st.value.func.value.func, ast.Attribute) and st.value.func.value.func.attr == "setdefault" \
+            and isinstance(st.value.func.value.func.value, ast.Name) and len(st.value.func.value.args) == 2 and ast.unparse(st.value.func.value.args[1]) == "[]" \
+            and len(st.value.args) == 1:
+        return st.value.func.value.func.value.id, st.value.func.value.args[0], st.value.args[0]
+    return None
+
+
 def mutated_name(st):
     """name mutated by an expression statement `x.append(..)` / `x[k] = v`, else None"""
+    sd = setdefault_append(st)
+    if sd:
+        return sd[0]
     if isinstance(st, ast.Expr) and isinstance(st.value, ast.Call) and isinstance(st.value.func, ast.Attribute) \
             and st.value.func.attr in MUTATORS and isinstance(st.value.func.value, ast.Name):
         return st.value.func.value.id
@@ -519,16 +532,25 @@ def block(ctx: Ctx, stmts, ret_wrap, ind="  ") -> str:
     if isinstance(s, ast.For):
         return for_loop(ctx, s, rest, ret_wrap, ind)
     if isinstance(s, ast.Try):
-        # `try: X = <call> except NotImplementedError: X = None`: the call is an Option-valued oracle whose `none`
-        # covers both "returned None" and "raised NotImplementedError"
-        ok = (len(s.handlers) == 1 and not s.orelse and not s.finalbody and ast.unparse(s.handlers[0].type) == "NotImplementedError"
-              and len(s.body) == 1 and isinstance(s.body[0], ast.Assign) and len(s.handlers[0].body) == 1
-              and isinstance(s.handlers[0].body[0], ast.Assign)
-              and ast.unparse(s.handlers[0].body[0].targets[0]) == ast.unparse(s.body[0].targets[0])
-              and ast.unparse(s.handlers[0].body[0].value) == "None")
+        # `try: X = <call> except <E>: [log] X = <fallback>`: the call is an Option-valued oracle (`none` = it raised).
+        # With fallback `None` the variable itself is the Option (covers "returned None" and "raised NotImplementedError").
+        hb = [st for st in (s.handlers[0].body if len(s.handlers) == 1 else []) if not is_log(st)]
+        ok = (len(s.handlers) == 1 and not s.orelse and not s.finalbody and ast.unparse(s.handlers[0].type) in ("NotImplementedError", "Exception")
+              and len(s.body) == 1 and isinstance(s.body[0], ast.Assign) and len(hb) == 1 and isinstance(hb[0], ast.Assign)
+              and ast.unparse(hb[0].targets[0]) == ast.unparse(s.body[0].targets[0]) and isinstance(s.body[0].targets[0], ast.Name))
         if not ok:
             raise Untranslatable("try/except of an unsupported shape")
-        return block(ctx, list(s.body) + rest, ret_wrap, ind)
+        if ast.unparse(hb[0].value) == "None":
+            return block(ctx, list(s.body) + rest, ret_wrap, ind)
+        tgt = s.body[0].targets[0].id
+        ty = ctx.typ(tgt)
+        call_ty = infer(ctx, s.body[0].value) or ""
+        if not ty or call_ty != f"Option {ty}" and call_ty != f"Option ({ty})":
+            raise Untranslatable(f"try/except: {tgt} : {ty} from a call of type {call_ty}")
+        if hasattr(ctx, "defined"):
+            ctx.defined.add(tgt)
+        return (f"let {li(tgt)} : {ty} := (match {expr(ctx, s.body[0].value)} with | some v_ => v_ | none => {expr(ctx, hb[0].value, ty)})\n{ind}"
+                + block(ctx, rest, ret_wrap, ind))
     m = mutated_name(s)
     if m is not None:
         if m not in (set(getattr(ctx, "defined", set())) | {p for p, _ in ctx.all_params}):
@@ -711,6 +733,12 @@ def mutation(ctx, st, name):
     if ty is None:
         raise Untranslatable(f"mutation of untyped variable {name}")
     n = li(name)
+    sd = setdefault_append(st)
+    if sd:
+        if not ty.startswith("AList"):
+            raise Untranslatable(f"setdefault on non-dict {name}")
+        kt, vt = alist_types(ty)
+        return f"let {n} := alistAppendTo {expr(ctx, sd[1], kt)} {expr(ctx, sd[2], elem_type(vt))} {n}"
     if isinstance(st, ast.Assign):
         tgt = st.targets[0]
         if not ty.startswith("AList"):
